@@ -9,6 +9,7 @@ import (
 	"testing/synctest"
 	"time"
 
+	"github.com/relab/hotstuff"
 	"github.com/relab/hotstuff/internal/proto/clientpb"
 )
 
@@ -114,6 +115,11 @@ func (w *World) setup() error {
 	for _, nd := range w.nodes {
 		nd := nd
 		w.at(0, "start", func() {
+			if w.kauri() {
+				// the replica is connected to its peers (Kauri waits for this before it disseminates)
+				nd.el.AddEvent(hotstuff.ReplicaConnectedEvent{Ctx: w.ctx})
+				w.guard(nd, "tick", func() { nd.el.Tick(w.ctx) })
+			}
 			w.topUp(nd)
 			w.guard(nd, "start", func() { nd.sync.Start(w.ctx) })
 			w.scheduleProcess(nd, 0)
